@@ -238,6 +238,12 @@ func HarnessC11Str() {
 			want += s
 		}
 		vAssert(vEqStr(out, want), "repeat-concatenates-copies")
+		// a count whose product with the receiver's length does not fit is refused with an error, whatever the length
+		if len(s) >= 2 {
+			huge := []int64{1 << 62, 9223372036854775807, (1 << 62) + 1, 6148914691236517206, 4611686018427387905}[vChoice("huge", 5)]
+			_, herr := hCall(T, name, recv, &object.Int{Value: huge})
+			vAssert(herr != nil, "oversized-repeat-is-an-error")
+		}
 	case "decimal":
 		// a string that spells an integer (optional sign, then digits) gains ".00"; any other string is returned as it is
 		res, err := hCall(T, name, recv)
